@@ -65,6 +65,8 @@ def configs():
     C["lookup-unreferenced-broken"] = {"root": "ra", "lookups": ["rb"], "defs": [D("ra", "ra.A", (1, 0), [("rb.X", (1, 0))]), D("rb", "rb.X", (1, 0)), D("rb", "rb.Broken", (1, 0), text="this is not DSDL $$$\n")]}
     C["stray-files"] = {"root": "ra", "lookups": [], "defs": [D("ra", "ra.A", (1, 0)), D("ra", "ra.s.B", (1, 0))], "extra": {"ra/README.md": "hello", "ra/s/B.1.0.dsdl.bak": "x", "ra/empty/.keep": "", "ra/s/notes.txt": "n"}}
     C["eight-flat"] = {"root": "ra", "lookups": [], "defs": [D("ra", "ra.T%d" % i, (1, 0), [("ra.T%d" % (i + 1), (1, 0))] if i % 3 == 0 and i < 7 else []) for i in range(8)]}
+    # ordering by FULL NAME: a lower-case type name / capitalised namespace next to a sub-namespace
+    C["sort-namespace-vs-name"] = {"root": "ra", "lookups": [], "defs": [D("ra", "ra.zulu", (1, 0)), D("ra", "ra.mid.Thing", (1, 0)), D("ra", "ra.Upper.Thing", (1, 0)), D("ra", "ra.Zeta", (1, 0)), D("ra", "ra._x", (1, 0)), D("ra", "ra.A_.B", (1, 0)), D("ra", "ra.A", (1, 0))]}
     C["same-name-roots"] = {"root": "p/ra", "lookups": ["q/ra"], "defs": [D("p/ra", "ra.A", (1, 0), [("ra.X", (1, 0))]), D("q/ra", "ra.X", (1, 0)), D("q/ra", "ra.Y", (1, 0))]}
     return C
 
@@ -292,6 +294,9 @@ def check_spellings(case, R):
                                 ("alias", [base / "links" / ("l%d" % i) / l.name for i, l in enumerate(lks)]), ("alias+real", lks + [base / "links" / "l0" / lks[0].name]), ("single" if len(lks) == 1 else "tuple", lks[0] if len(lks) == 1 else tuple(lks))]
             else:
                 lk_variants += [("none", None), ("root-only", [root]), ("root-twice", [root, str(root)]), ("empty-tuple", ())]
+            if lks and rname in ("abs", "rel"):
+                # one-shot iterables are legal values of an Iterable parameter
+                lk_variants += [("generator", "GEN"), ("iterator", "ITER"), ("map-str", "MAP"), ("set", set(lks)), ("dict-keys", {x: 1 for x in lks}.keys())]
             for lname, l in lk_variants:
                 variants.append((rname, lname, r, l))
         for rname, lname, r, l in variants:
@@ -299,6 +304,8 @@ def check_spellings(case, R):
             R.state([case["config"], "spelling", rname, lname])
             R.transitions += 1
             R.traces += 1
+            if isinstance(l, str) and l in ("GEN", "ITER", "MAP"):
+                l = {"GEN": (x for x in lks), "ITER": iter(list(lks)), "MAP": map(str, lks)}[l]
             try:
                 res = pydsdl.read_namespace(r, l)
                 o = {"ok": obs_types(res, base)}
@@ -311,6 +318,43 @@ def check_spellings(case, R):
                 R.violation("result-depends-on-argument-spelling:%s:%s" % (rname, lname), "the result does not depend on the order, duplication or spelling of the directory arguments", {**case, "root": rname, "lookups": lname}, observed=o, expected=ref)
             else:
                 R.outcome("ok-spelling")
+        # read_files: the other root namespaces designated through root_namespace_directories_or_names (no lookup_directories),
+        # spelled as absolute paths, relative paths, bare names, one-shot iterables; targets given as list / iterator
+        targets = [d for d in cfg["defs"] if d["dir"] == cfg["root"] and d.get("text") is None]
+        all_dirs = [cfg["root"]] + cfg["lookups"]
+        if targets and "/" not in "".join(all_dirs):
+            tfiles = [base / N.file_of(t) for t in targets]
+            ref_rf = run_rf(base, cfg, targets, roots=[base / d for d in all_dirs], lookups=[])
+            rf_variants = [
+                ("abs", lambda: (tfiles, [base / d for d in all_dirs], None)),
+                ("rel", lambda: ([Path(N.file_of(t)) for t in targets], [Path(d) for d in all_dirs], None)),
+                ("names", lambda: (tfiles, [Path(d).name for d in all_dirs], None)),
+                ("names-rel-targets", lambda: ([N.file_of(t) for t in targets], [Path(d).name for d in all_dirs], None)),
+                ("reversed-roots", lambda: (tfiles, [base / d for d in reversed(all_dirs)], None)),
+                ("root-abs-others-as-lookups", lambda: (tfiles, [base / cfg["root"]], [base / d for d in cfg["lookups"]])),
+                ("root-name-others-as-lookup-names", lambda: (tfiles, [cfg["root"]], [Path(d) for d in cfg["lookups"]])),
+                ("iterators", lambda: (iter(list(tfiles)), (base / d for d in all_dirs), None)),
+                ("map-str", lambda: (map(str, tfiles), map(str, [base / d for d in all_dirs]), iter([]))),
+                ("tuple-set", lambda: (tuple(tfiles), set(base / d for d in all_dirs), ())),
+            ]
+            for vname, mk in rf_variants:
+                tg, roots, lk = mk()
+                R.case([case["config"], "rf-spelling", vname], nontrivial=True, sample=False)
+                R.state([case["config"], "rf-spelling", vname])
+                R.transitions += 1
+                R.traces += 1
+                try:
+                    d_, t_ = pydsdl.read_files(tg, roots, lk)
+                    o = {"ok": [obs_types(d_, base), obs_types(t_, base)]}
+                except pydsdl.InvalidDefinitionError as ex:
+                    o = {"ide": type(ex).__name__}
+                except Exception as ex:  # noqa
+                    o = {"other": type(ex).__name__, "text": str(ex)[:200]}
+                if o != ref_rf:
+                    R.outcome("spelling-dependent")
+                    R.violation("read_files-depends-on-argument-spelling:" + vname, "the result does not depend on the order, duplication or spelling of the directory arguments", {**case, "read_files": vname}, observed=o if "ok" not in o else [names_of(o["ok"][0]), names_of(o["ok"][1])], expected=ref_rf if "ok" not in ref_rf else [names_of(ref_rf["ok"][0]), names_of(ref_rf["ok"][1])])
+                else:
+                    R.outcome("ok-rf-spelling")
     finally:
         os.chdir(old)
         ws.remove(base)
